@@ -201,6 +201,13 @@ embedded_pairing_core_arch_x86_64_bigint_768_square:
     adc %rbx, %rbx
     adc %r9, %r9
 
+    # The doubling can carry out of the ten words held in registers (when the
+    # two most significant words of the operand are large). Save that carry;
+    # it is added to the most significant word of the result at the end.
+    movq $0, %rax
+    adc $0, %rax
+    push %rax
+
     # Add diagonal (r8 stores the carry)
     movq (%rsi), %rax
     mulq %rax
@@ -233,6 +240,8 @@ embedded_pairing_core_arch_x86_64_bigint_768_square:
     add %rax, %r9
     movq %r9, 80(%rdi)
     adc $0, %rdx
+    pop %rax
+    add %rax, %rdx
     movq %rdx, 88(%rdi)
 
     pop %r15
